@@ -239,6 +239,20 @@ fn run_case<T: yaserde::YaSerialize + yaserde::YaDeserialize + std::fmt::Debug>(
     }
     emit(format!("{{\"ev\":\"end\",\"id\":{},\"side\":{}}}", js(id), js(side)));
 }
+fn run_docs<T: yaserde::YaSerialize + yaserde::YaDeserialize + std::fmt::Debug>(id: &str, side: &str, docs: &[&str]) {
+    emit(format!("{{\"ev\":\"begin\",\"id\":{},\"side\":{}}}", js(id), js(side)));
+    for (j, d) in docs.iter().enumerate() {
+        match yaserde::de::from_str::<T>(d) {
+            Ok(v2) => {
+                let s2 = yaserde::ser::to_string(&v2);
+                emit(format!("{{\"ev\":\"de\",\"id\":{},\"side\":{},\"doc\":{},\"de_ok\":true,\"debug_eq\":true,\"docs_only\":true,{}}}",
+                    js(id), js(side), j, rs(&s2)));
+            }
+            Err(e) => emit(format!("{{\"ev\":\"de\",\"id\":{},\"side\":{},\"doc\":{},\"de_ok\":false,\"err\":{}}}", js(id), js(side), j, js(&e))),
+        }
+    }
+    emit(format!("{{\"ev\":\"end\",\"id\":{},\"side\":{}}}", js(id), js(side)));
+}
 fn run_check<T: g::restrictions::CheckRestrictions>(id: &str, v: &T) {
     let r = v.check_restrictions(None);
     match r {
